@@ -117,3 +117,25 @@ def close(a, b, tol=1e-9):
     if a.shape != b.shape:
         return False
     return bool(np.all(np.abs(a - b) <= tol * (1 + np.abs(a) + np.abs(b))))
+
+
+def at_freed_address(make_first, use_first, make_second, tries=400):
+    """History regime 'an argument object that has been freed, and a different one created where it was': calls
+    use_first(make_first()), drops the object, then builds objects with make_second() until one has the id() of the
+    dropped one (CPython hands a freed block of the same size class out again at once, so this usually takes one try).
+    Returns that object, or None when the address did not come back (the regime is then skipped, never failed)."""
+    import gc
+    a = make_first()
+    use_first(a)
+    ida = id(a)
+    del a
+    gc.collect()
+    held = []
+    for _ in range(tries):
+        b = make_second()
+        if id(b) == ida:
+            del held
+            return b
+        held.append(b)
+    del held
+    return None
